@@ -66,6 +66,8 @@ func c03Inits() []c03Init {
 	for i, l := range peBaseLayouts() {
 		out = append(out, c03Init{fmt.Sprintf("layout%d", i), pegen.Build(l)})
 	}
+	out = append(out, c03Init{"110KB-image", pegen.Build(peBigLayout())})
+	out = append(out, c03Init{"chunk-boundary-image", pegen.Build(peChunkBoundaryLayout())})
 	// layouts carrying a third-party certificate table (a real sbsign signature blob as payload)
 	if blob, err := os.ReadFile("/repo/authenticode/testdata/test.pecoff.pk7"); err == nil {
 		for _, i := range []int{0, 1, 4} {
